@@ -32,7 +32,7 @@ add("C02", "exploration", "runtime monitoring: execution recorder (body counts) 
     "Each (value, backend, modifier) runs on a fresh store: first call, two later calls, re-use of the first value, memento result type, forget and recompute. Held = every later call was observed to be served without a body execution and equal in value and type, for all result types of the domain and 15 exception classes.",
     "The recorder is the ground truth for body executions; equality is vf.domain.eq; exception rebuildability is decided by importing the class by name and calling it with one string.", "DESIGN.md §4 C02")
 add("C17", "exploration", "runtime monitoring: key-by-key comparison of every partition handed back (computing call, later call, cache-less re-read, first value re-used later) with the overlay closed form",
-    "Partition chains of length 1-5 with overlapping keys, both staging kinds, three parent provenances and three back-ends; every key is loaded on its own and compared with own-keys-win overlay; body counts show each level is memoized.",
+    "Partition chains of length 1-5 with overlapping keys plus sibling children of a random level, both staging kinds, three parent provenances and three back-ends; every level is served again after its children were stored; every key is loaded on its own and compared with own-keys-win overlay; body counts show each level is memoized.",
     "Overlay closed form (dict.update in chain order) and vf.domain.eq are trusted.", "DESIGN.md §4 C17")
 
 add("C04", "exploration", "runtime monitoring: arg_hash, hit/miss (recorder + unique result serials) and received values of every call presentation, against an independent implementation of the documented algorithm and metamorphic relations",
@@ -53,35 +53,35 @@ add("C15", "exploration", "runtime monitoring: slot-by-slot comparison of call_b
     "Batches with duplicates, failing and not-to-be-memoized elements, random pre-memoized subsets, both raise_first_exception settings, four presentations and three store kinds; each batch is mirrored by individual calls on a twin store.",
     "Failures compare by class and message prefix; stored exceptions by recorded class name and message.", "DESIGN.md §4 C15")
 add("C18", "exploration", "runtime monitoring: behaviour vectors (tree snapshots + audit hook + call outcomes) of configured back-ends and clusters compared with constructor-argument equivalents over the full option matrix",
-    "Every option combination x five source forms (inline dict, cluster config, JSON file, YAML jinja template, nested relative files) is built and its behaviour observed; explicit-argument overrides, all repository orders with duplicated names, and environment dumps are checked the same way.",
+    "Every option combination x five source forms (inline dict, cluster config, JSON file, YAML jinja template, nested relative files) is built and its behaviour observed; explicit-argument overrides, all repository orders with duplicated names, histories of look-ups interleaved with repositories added later (live environment and its rebuilt dump), and environment dumps are checked the same way.",
     "Behaviour vector = where files appear, cache hits for three value sizes, write/forget behaviour, body execution; the matrix is enumerated completely.", "DESIGN.md §4 C18")
 
 add("C12", "exploration", "runtime monitoring: parse results compared with the parts a name was built from (independent all-decompositions enumerator classifies ambiguous strings), stored entries looked up again in fresh processes, every metadata read observed after scripted code evolutions",
-    "Names over the stated alphabet are parsed, a sample is stored under real functions/clusters on a filesystem store and found again by call, memento(), list_mementos() and list_memoized_functions(); seven evolution kinds of a pinned caller / evolving callee pair are run across fresh processes in default and named clusters, with and without cache.",
+    "Names over the stated alphabet are parsed, a sample is stored under real functions/clusters on a filesystem store and found again by call, memento(), list_mementos() and list_memoized_functions(); eight evolution kinds x five ways the pinned caller reaches the evolving callee (by name, as a function-valued argument bare or nested, through a partial, through a batch) are run across fresh processes in default and named clusters, with and without cache.",
     "Inherently ambiguous qualified names (more than one valid decomposition) are reported as the single known finding K1; module and function names are dotted identifiers.", "DESIGN.md §4 C12")
 
 add("C01", "exploration", "runtime monitoring: value of every memento function after every edit of generated programs, compared with the twin (un-memoized) execution of the current edition; execution recorder shows which calls were served from the store",
-    "Generated two-module programs with 17 edit kinds, delivered across processes against one persistent store or inside a running process (cell-style re-execution, rebinding/mutation of variables, module reload); every function is called twice after every edit and compared with running Python on the same source with memento_function = identity.",
+    "Generated programs (functions spread over two modules, the package's __init__.py and a second package; typed defaults and constants) with 20 edit kinds, one or several edits between calls, delivered across processes against one persistent store or inside a running process (cell-style re-execution, rebinding/mutation of variables, module reload); every function is called twice after every edit and compared with running Python on the same source with memento_function = identity.",
     "The twin execution defines the expected value; explicit versions above an edit are bumped (their contract); UndeclaredDependencyError is accepted; in cell-style delivery, imports and aliases that copy a re-executed definition are re-executed too.", "DESIGN.md §4 C01")
 
 add("C03", "exploration", "runtime monitoring: version maps reported by real interpreters under different PYTHONHASHSEED values, definition orders and query orders; execution trace file of a second process on the first one's store",
-    "Every generated program (all contain set and tuple constants, nested code and cross-module references) is imported by 8 (quick) / 24 (thorough) real interpreters; all version maps must be identical; a second interpreter with another hash seed and other orders must execute no body at all on the first one's store.",
+    "Every generated program (all contain set and tuple constants, nested code and cross-module references; many span two packages and __init__.py) is imported by 8 (quick) / 24 (thorough) real interpreters; all version maps must be identical; a second interpreter with another hash seed and other orders must execute no body at all on the first one's store.",
     "Each interpreter is a fresh /venv/bin/python process; PYTHONHASHSEED values are a sample.", "DESIGN.md §4 C03")
 add("C13", "exploration", "runtime monitoring: version() of every registered function after every prefix of an in-process event sequence, compared with the versions a pristine forked child computes from the identical compilation units of the resulting program",
-    "Event sequences mixing redefinitions, rebinding/mutation of variables, alias re-binding, late-defined symbols, memento/plain switches, modifier clones and unregistered wrappers, with interleaved subset queries; after every event the running process's versions are compared with a from-scratch computation in a fresh child.",
+    "Event sequences mixing redefinitions (also of unchanged definitions), events that nobody follows with a query, rebinding/mutation of variables, alias re-binding, late-defined symbols, memento/plain switches, modifier clones and unregistered wrappers, with interleaved subset queries; after every event the running process's versions are compared with a from-scratch computation in a fresh child.",
     "The oracle child executes the base files with superseded definitions cut out plus the surviving cells (same pseudo-filenames), i.e. the code's own from-scratch computation; clones/wrappers are judged only at creation.", "DESIGN.md §4 C13")
 
 add("C14", "exploration", "runtime monitoring: reported transitive/direct dependency sets and dependency-graph edges of every memento function in exhaustively enumerated reference graphs (one pristine child each), and outcomes of hidden dynamic calls, against graph reachability",
-    "All 2048 three-node graphs (all subsets of edges incl. self-loops and cycles, all kind assignments) in the bare-name form in the quick tier, all four reference forms plus four-node graphs in the thorough tier; random two-module programs with hidden globals() calls are executed and must raise the undeclared-dependency error exactly when an executed hidden call leaves the caller's static closure; functions passed as arguments (bare, list, dict, nested) must be callable.",
+    "All 2048 three-node graphs (all subsets of edges incl. self-loops and cycles, all kind assignments) in six forms (bare name, module.attr, alias, decorator-wrapped, helpers in __init__.py with the root in a sub-module and the other way round), four-node graphs in the thorough tier; random two-module programs with hidden globals() calls are executed and must raise the undeclared-dependency error exactly when an executed hidden call leaves the caller's static closure; functions passed as arguments (bare, list, dict, nested) must be callable.",
     "Reachability on the generated graph data is the oracle; non-memento rules are ignored; small scopes are enumerated completely.", "DESIGN.md §4 C14")
 
-add("C08", "fault_enumeration", "runtime monitoring under fault injection: audit-hook failpoints (crash-before, crash-mid-write with content prefixes, error on the operation, error on write after n bytes) at every mutating filesystem operation of a memoizing call; calls observed in fresh processes afterwards",
+add("C08", "fault_enumeration", "runtime monitoring under fault injection: audit-hook failpoints (crash-before, crash-mid-write with content prefixes, error on the operation, error on write after n bytes) at every mutating filesystem operation of a memoizing call, plus kernel-level file size limits (RLIMIT_FSIZE) at every size class of the files written; calls observed in fresh processes afterwards",
     "For each scenario a profiling run (deterministic version ids) enumerates every mkdir / open-for-write / rename / remove of the memoizing call; every operation is faulted in every applicable variant (thorough: every byte of every link file) in a pristine child, then three fresh processes call the function and a second function with byte-identical results: values must be correct, nothing may raise, and no body may run in the third process (bounded recovery).",
     "Crash = os._exit at the failpoint; faults hit mutating operations only; durability of completed writes is left to the file system; CPython audit events enumerate the operations.", "DESIGN.md §4 C08")
 
 add("C09", "exploration", "runtime monitoring under schedule control: a baton scheduler over sys.monitoring (LINE events in runner and cache code, function-entry events elsewhere, scheduler-aware locks) drives 2-3 real threads through systematically enumerated one-preemption schedules and random / PCT schedules; results, escaping errors, body counts, deadlocks, cache accounts and call stacks are checked per run",
     "Per scenario and store/cache state every schedule with one preemption (every yield point of the unpreempted run) is executed, plus random and priority-based schedules (thorough: every starting thread, sampled two-preemption schedules, storage_filesystem at line granularity); each run is compared with sequential executions of the same thread bodies. Evidence reports distinct switch traces.",
-    "Only locks created through re-bound names (runner_local.RLock, _memento_fn_mutex_lock, storage_base.RLock) are visible to the scheduler; anything else blocking shows as a watchdog time-out = inconclusive. Line-granularity preemption is finer than what one CPython build does.", "DESIGN.md §4 C09")
+    "Only locks created through the re-bound factories (RLock / Lock names of runner_local and storage_base) and module-level lock objects of these modules are visible to the scheduler; anything else blocking shows as a watchdog time-out = inconclusive. Line-granularity preemption is finer than what one CPython build does.", "DESIGN.md §4 C09")
 
 NOT_BUILT = "check not built yet in this round (design in DESIGN.md §4); will be claimed once its monitor exists"
 
